@@ -11,8 +11,13 @@ C11 — unsupported placements of temporal constructs are rejected, all others a
   * `prime_uniform`  adding one prime at both ends changes nothing (`'p''` = `p'`, `''p'` = `'p`)
   * `reject_iff`     the two combined: rejection exactly for the documented placements
   * `theory_guard`   `&tel` / `&del` body atoms are rejected exactly in a positive body literal of a non-constraint
-The table `Position.flags` itself (the traversal state per position) is hand-transcribed and validated against
-the real `transform` on the full position × atom-form grid (every run), in the always and the final part.
+  * `element_terms_guard`  a theory element of a body `&tel` or a `&del` atom is rejected exactly if it has not exactly one term (E13)
+  * `flags_from_classification` / `classification_spec`  the `constraint` and `normal` columns of the position table are the
+                     values of `is_constraint` / `is_normal` (E8, regenerated from the source) on the statement the position
+                     lives in
+The `head` column of `Position.flags` (the traversal state per position) and the statement shape per position are
+hand-transcribed and validated against the real `transform` on the full position × atom-form grid (every run), in the always
+and the final part.
 -/
 import TelProofs.RejectProofs
 
@@ -27,10 +32,33 @@ theorem flags_table (pos : Position) :
     replaceFuture pos.flags.head pos.flags.constraint pos.flags.normal = pos.isPositiveHead := by
   cases pos <;> decide
 
+/-- the `constraint` and `normal` columns of the position table are what `is_constraint` / `is_normal` (E8, regenerated
+    from transformers/transformer.py; `visit_Rule` sets the flags from them) say about the statement the position lives in;
+    outside rules the flags keep their reset value `false` -/
+theorem flags_from_classification (pos : Position) :
+    pos.flags.constraint = pos.stmt.isConstraint ∧ pos.flags.normal = pos.stmt.isNormal := by
+  cases pos <;> decide
+
+/-- what the two classifiers mean: a constraint is a rule whose head is the literal `#false` or a literal with a sign; a
+    normal rule is a rule whose head is a positive symbolic literal — never both -/
+theorem classification_spec (s : StmtShape) :
+    s.isConstraint = (s.isRule && s.headIsLiteral && ((s.atomIsBoolConst && !s.atomValue) || !s.signNone)) ∧
+    s.isNormal = (s.isRule && s.headIsLiteral && s.signNone && s.atomIsSymbolic) ∧
+    (s.atomIsBoolConst && s.atomIsSymbolic = false → (s.isConstraint && s.isNormal) = false) := by
+  obtain ⟨a, b, c, d, e, f⟩ := s
+  cases a <;> cases b <;> cases c <;> cases d <;> cases e <;> cases f <;> decide
+
 theorem theory_guard (negated constraintRule : Bool) :
     telBodyAccepted negated constraintRule = (negated || constraintRule) ∧
     delBodyAccepted negated constraintRule = (negated || constraintRule) := by
   cases negated <;> cases constraintRule <;> decide
+
+/-- a theory element is rejected (with a RuntimeError) exactly if it does not carry exactly one term — in a body `&tel` atom
+    and in a `&del` atom alike (E13, regenerated from `visit_TheoryAtom`) -/
+theorem element_terms_guard (n : Nat) :
+    telElemRejected (n : Int) = (n != 1) ∧ delElemRejected (n : Int) = (n != 1) := by
+  unfold telElemRejected delElemRejected
+  constructor <;> (rw [Bool.eq_iff_iff]; simp only [bne_iff_ne]; omega)
 
 /-- the core is not an initially / finally form: it does not start with a single `_` nor end with one -/
 def PlainCore (core : List Char) : Prop :=
